@@ -7,7 +7,7 @@
 import TrompModel.Model.CxxBase
 namespace Tromp.Cxx
 
-/-- `impl::is_permutation_range_checker::operator()` — translated from include/trompeloeil/matcher/range.hpp:267 -/
+/-- `impl::is_permutation_range_checker::operator()` — translated from include/trompeloeil/matcher/range.hpp:270 -/
 def is_permutation_range {α μ : Type} (accepts : μ → α → Bool) (range : List α) (elements : List μ) : Bool := Id.run do
   let mut matchers : List μ := []
   for element in elements do
